@@ -2,7 +2,7 @@
 (* Script generator of GC.tla's family (direction A): see GCTrace.tla for the semantics (direction B). *)
 EXTENDS Integers, Sequences, FiniteSets, TLC, Json
 
-CONSTANTS MaxVals, MaxSteps, MaxDepth, EmitAll
+CONSTANTS MaxVals, MaxSteps, MaxDepth, EmitAll, CrossRemark
 
 Kinds == {"t", "tr", "u", "ur", "r", "uk"}   \* table+gc, table+gc resurrecting, userdata gc+release, same resurrecting, userdata release only,
                                            \* uk: userdata gc+release whose finaliser exhausts the CPU limit of its context (only created inside one)
@@ -18,11 +18,12 @@ gvars == <<nvals, depth, n, hist>>
 KindsOf(h) == [i \in 1..Len(SelectSeq(h, LAMBDA a : a.a = "mk")) |-> SelectSeq(h, LAMBDA a : a.a = "mk")[i].kind]
 DroppedOf(h) == {h[i].id : i \in {j \in 1..Len(h) : h[j].a = "drop"}}
 RemarksOf(h) == [i \in 1..Len(SelectSeq(h, LAMBDA a : a.a = "remark")) |-> SelectSeq(h, LAMBDA a : a.a = "remark")[i].id]
-(* the value was created outside any limited context (re-marking is only generated there, in the pool that owns the value) *)
+(* the value was created outside any limited context *)
 RECURSIVE DepthAt(_, _)
 DepthAt(h, k) == IF k = 0 THEN 0 ELSE DepthAt(h, k - 1) + (IF h[k].a = "enter" THEN 1 ELSE IF h[k].a = "leave" THEN -1 ELSE 0)
+RemarkDepths(h) == {<<h[k].id, DepthAt(h, k)>> : k \in {j \in 1..Len(h) : h[j].a = "remark"}}
 TopLevel(h, i) == \E k \in 1..Len(h) : h[k].a = "mk" /\ h[k].id = i /\ DepthAt(h, k) = 0
-GView == <<KindsOf(hist), DroppedOf(hist), RemarksOf(hist), depth, n, IF n = 0 THEN "-" ELSE hist[n].a>>
+GView == <<KindsOf(hist), DroppedOf(hist), RemarksOf(hist), RemarkDepths(hist), depth, n, IF n = 0 THEN "-" ELSE hist[n].a>>
 Emit(v) == PrintT(<<"@@", ToJson(v)>>)
 
 GInit == nvals = 0 /\ depth = 0 /\ n = 0 /\ hist = <<>>
@@ -32,7 +33,8 @@ GNext ==
   /\ n < MaxSteps
   /\ \/ \E k \in Kinds : nvals < MaxVals /\ (k = "uk" => depth > 0) /\ GStep([a |-> "mk", id |-> nvals + 1, kind |-> k], nvals + 1, depth)
      \/ \E i \in 1..nvals : GStep([a |-> "drop", id |-> i, kind |-> "-"], nvals, depth)
-     \/ \E i \in 1..nvals : /\ depth = 0 /\ i \notin DroppedOf(hist) /\ KindsOf(hist)[i] \in {"t", "tr"} /\ TopLevel(hist, i)
+     \/ \E i \in 1..nvals : /\ i \notin DroppedOf(hist) /\ KindsOf(hist)[i] \in {"t", "tr"}
+                             /\ (CrossRemark \/ (depth = 0 /\ TopLevel(hist, i)))      \* re-marking in another context than the creating one
                              /\ Len(RemarksOf(hist)) < 2
                              /\ GStep([a |-> "remark", id |-> i, kind |-> "-"], nvals, depth)
      \/ GStep([a |-> "collect", id |-> 0, kind |-> "-"], nvals, depth)
